@@ -40,3 +40,31 @@ def run(name, kind, bound, code, timeout=600, replay_head=''):
                          % (name, json.dumps(r['bad'][0])[:600].replace('"""', '')) + full +
                          '\n# exit status: 1 if the stand-in still finds a failing case\n')
     return res
+
+
+def run_script(name, script, seed, cases, kind, bound, extra_args=(), timeout=1800):
+    """Run a stand-in script of /verif/standins (interface: --seed --cases; last stdout line is a JSON verdict)."""
+    path = os.path.join(VERIF, 'standins', script)
+    env = dict(os.environ)
+    env['PYTHONPATH'] = VERIF
+    cmd = ['/venv/bin/python', path, '--seed', str(seed), '--cases', str(cases)] + list(extra_args)
+    try:
+        p = subprocess.run(cmd, capture_output=True, text=True, timeout=timeout, env=env, cwd=VERIF)
+        r = json.loads(p.stdout.strip().split('\n')[-1])
+    except Exception as e:
+        out = ''
+        try:
+            out = (p.stdout + p.stderr)[-1500:]
+        except Exception:
+            pass
+        return {'name': name, 'kind': kind, 'bound': bound, 'cases': 0, 'crashed': True, 'error': str(e)[:300] + ' ' + out,
+                'violation': 'stand-in crashed: %s' % str(e)[:200],
+                'replay': '#!/venv/bin/python\n"""stand-in %s crashed"""\nprint(%r)\nimport sys; sys.exit(1)\n' % (name, out)}
+    res = {'name': name, 'kind': kind, 'bound': bound, 'cases': r.get('cases', 0), 'nontrivial': r.get('nontrivial', r.get('cases', 0)),
+           'cmd': ' '.join(cmd)}
+    if r.get('bad'):
+        res['violation'] = '%s: %s' % (name, json.dumps(r['bad'][0])[:400])
+        res['witness'] = r['bad'][0]
+        res['replay'] = ('#!/venv/bin/python\n"""Bounded stand-in %s found a failing case: %s"""\nimport subprocess, sys\n'
+                         'sys.exit(subprocess.call(%r))\n' % (name, json.dumps(r['bad'][0])[:800].replace('"""', ''), cmd))
+    return res
